@@ -44,10 +44,13 @@ CONSTANTS Reactions,    \* subset of {"Noop", "Suspend", "Panic"}
           GuardValues   \* values a cleanup guard may trigger with while its source unwinds ({} = no guards)
 
 NoGuard == 99
+NoPrep  == 98
 
-VARIABLES registry, chan, one, held, pc, cur, guard, last
+CONSTANT Prepare        \* BOOLEAN: sources may build `trigger(v)` futures ahead of time ("prepared triggers")
 
-ivars == <<registry, chan, one, held, pc, cur, guard>>
+VARIABLES registry, chan, one, held, pc, cur, guard, prepared, last
+
+ivars == <<registry, chan, one, held, pc, cur, guard, prepared>>
 vars  == <<pvars, ivars, last>>
 
 Init ==
@@ -59,6 +62,7 @@ Init ==
     /\ pc = [s \in Srcs |-> "idle"]
     /\ cur = 0
     /\ guard = [s \in Srcs |-> NoGuard]
+    /\ prepared = [s \in Srcs |-> NoPrep]     \* value of the trigger future source s has built but not polled
     /\ last = [ev |-> "init"]
 
 NTrigBy(s) == Cardinality({t \in TrigIds : trigs[t].src = s})
@@ -74,7 +78,7 @@ RegRx(b) == (CHOOSE k \in 1..Len(registry) : registry[k].id = b)
 (* test-thread actions (cur = 0) *)
 
 Build(rx, cond) ==
-    /\ UNCHANGED guard
+    /\ UNCHANGED <<guard, prepared>>
     /\ cur = 0 /\ Len(bars) < MaxBars
     /\ P_Build(rx, cond)
     /\ LET b == Len(bars) + 1 IN
@@ -86,7 +90,7 @@ Build(rx, cond) ==
 \* Drop for Barrier: unregister; the receiver goes away with every queued
 \* message, so a queued Some(sender) is dropped unsent
 DropBarrier(b) ==
-    /\ UNCHANGED guard
+    /\ UNCHANGED <<guard, prepared>>
     /\ cur = 0
     /\ P_DropBarrier(b)
     /\ registry' = SelectSeq(registry, LAMBDA e : e.id # b)
@@ -99,7 +103,7 @@ DropBarrier(b) ==
 
 \* Barrier::wait polled once
 Wait(b) ==
-    /\ UNCHANGED guard
+    /\ UNCHANGED <<guard, prepared>>
     /\ cur = 0 /\ b \in BarIds /\ bars[b].live
     /\ IF chan[b] = <<>>
        THEN /\ P_Wait(b, 0)
@@ -114,7 +118,7 @@ Wait(b) ==
 
 \* Drop for Triggered: release.take().send(())
 DropHandle(t) ==
-    /\ UNCHANGED guard
+    /\ UNCHANGED <<guard, prepared>>
     /\ cur = 0 /\ t \in held
     /\ P_DropHandle(t)
     /\ held' = held \ {t}
@@ -126,7 +130,9 @@ DropHandle(t) ==
 (* source actions *)
 
 \* source s is polled and calls trigger(v).await
-Trigger(s, v, g) ==
+\* pf = the future was built earlier (Prepare) and is polled for the first time now.  `trigger` is an
+\* `async fn`: building its future runs nothing, the whole body (lookup, reaction, send) runs at the first poll.
+TriggerCore(s, v, g, pf) ==
     /\ guard' = [guard EXCEPT ![s] = g]
     /\ cur = 0 /\ pc[s] = "idle" /\ NTrigBy(s) < MaxTrig
     /\ P_Trig(s, v, FALSE, FALSE)
@@ -147,12 +153,37 @@ Trigger(s, v, g) ==
             [] rx = "Panic" ->
                  /\ one' = Append(one, "none") /\ chan' = chan
                  /\ pc' = [pc EXCEPT ![s] = "panicking"]
-       /\ last' = [ev |-> "trig", src |-> s, v |-> v, sync |-> FALSE, t |-> t, g |-> g, unwind |-> FALSE]
+       /\ last' = [ev |-> "trig", src |-> s, v |-> v, sync |-> FALSE, t |-> t, g |-> g, unwind |-> FALSE, prepared |-> pf]
     /\ cur' = s
     /\ UNCHANGED <<registry, held>>
 
+Trigger(s, v, g) == TriggerCore(s, v, g, FALSE) /\ UNCHANGED prepared
+
+\* source s builds the future `trigger(v)` and keeps it (nothing of trigger's body runs)
+PrepareTrigger(s, v) ==
+    /\ Prepare /\ cur = 0 /\ pc[s] = "idle" /\ prepared[s] = NoPrep /\ NTrigBy(s) < MaxTrig
+    /\ prepared' = [prepared EXCEPT ![s] = v]
+    /\ cur' = s
+    /\ last' = [ev |-> "prep", src |-> s, v |-> v]
+    /\ UNCHANGED <<pvars, registry, chan, one, held, pc, guard>>
+
+\* source s awaits the future it built earlier: this is the trigger call
+TriggerPrepared(s) ==
+    /\ prepared[s] # NoPrep
+    /\ TriggerCore(s, prepared[s], NoGuard, TRUE)
+    /\ prepared' = [prepared EXCEPT ![s] = NoPrep]
+
+\* source s drops the future it built without ever polling it: no trigger happened
+DropPrepared(s) ==
+    /\ cur = 0 /\ pc[s] = "idle" /\ prepared[s] # NoPrep
+    /\ prepared' = [prepared EXCEPT ![s] = NoPrep]
+    /\ cur' = s
+    /\ last' = [ev |-> "drop_prep", src |-> s]
+    /\ UNCHANGED <<pvars, registry, chan, one, held, pc, guard>>
+
 \* source s is polled and calls trigger_noop(v)
 TriggerNoop(s, v, g) ==
+    /\ UNCHANGED prepared
     /\ guard' = [guard EXCEPT ![s] = g]
     /\ cur = 0 /\ pc[s] = "idle" /\ NTrigBy(s) < MaxTrig
     /\ P_Trig(s, v, TRUE, FALSE)
@@ -167,13 +198,13 @@ TriggerNoop(s, v, g) ==
                  /\ pc' = [pc EXCEPT ![s] = "ready"]
             [] rx \in {"Suspend", "Panic"} ->
                  /\ chan' = chan /\ pc' = [pc EXCEPT ![s] = "panicking"]
-       /\ last' = [ev |-> "trig", src |-> s, v |-> v, sync |-> TRUE, t |-> t, g |-> g, unwind |-> FALSE]
+       /\ last' = [ev |-> "trig", src |-> s, v |-> v, sync |-> TRUE, t |-> t, g |-> g, unwind |-> FALSE, prepared |-> FALSE]
     /\ cur' = s
     /\ UNCHANGED <<registry, held>>
 
 \* source s is polled while parked on rx.await
 Poll(s) ==
-    /\ UNCHANGED guard
+    /\ UNCHANGED <<guard, prepared>>
     /\ cur = 0 /\ pc[s] = "awaiting"
     /\ cur' = s
     /\ pc' = [pc EXCEPT ![s] = IF one[open[s]] \in {"sent", "closed"} THEN "ready" ELSE @]
@@ -181,7 +212,7 @@ Poll(s) ==
     /\ UNCHANGED <<pvars, registry, chan, one, held>>
 
 Return(s) ==
-    /\ UNCHANGED guard
+    /\ UNCHANGED <<guard, prepared>>
     /\ cur = s /\ pc[s] = "ready"
     /\ P_Ret(s, progress[s] + 1)
     /\ pc' = [pc EXCEPT ![s] = "idle"]
@@ -197,7 +228,7 @@ Panicked(s) ==
        THEN pc' = [pc EXCEPT ![s] = "dead"] /\ cur' = 0
        ELSE pc' = [pc EXCEPT ![s] = "unwinding"] /\ cur' = s
     /\ last' = [ev |-> "panicked", src |-> s, t |-> open[s]]
-    /\ UNCHANGED <<registry, chan, one, held, guard>>
+    /\ UNCHANGED <<registry, chan, one, held, guard, prepared>>
 
 \* Drop of the cleanup guard while the thread is unwinding: trigger_noop(guard value).
 \* std::thread::panicking() is true here; the lookup is the same as on any other path.
@@ -215,8 +246,8 @@ UnwindTrigger(s) ==
                  /\ pc' = [pc EXCEPT ![s] = "uready"]
             [] rx \in {"Suspend", "Panic"} ->
                  /\ chan' = chan /\ pc' = [pc EXCEPT ![s] = "upanicking"]
-       /\ last' = [ev |-> "trig", src |-> s, v |-> guard[s], sync |-> TRUE, t |-> t, g |-> NoGuard, unwind |-> TRUE]
-    /\ UNCHANGED <<registry, held, cur, guard>>
+       /\ last' = [ev |-> "trig", src |-> s, v |-> guard[s], sync |-> TRUE, t |-> t, g |-> NoGuard, unwind |-> TRUE, prepared |-> FALSE]
+    /\ UNCHANGED <<registry, held, cur, guard, prepared>>
 
 \* the guard's trigger_noop returned (the guard bumps the counter); unwinding ends, the source is gone
 UnwindReturn(s) ==
@@ -225,7 +256,7 @@ UnwindReturn(s) ==
     /\ pc' = [pc EXCEPT ![s] = "dead"]
     /\ cur' = 0
     /\ last' = [ev |-> "ret", src |-> s, t |-> open[s], prog |-> progress[s] + 1]
-    /\ UNCHANGED <<registry, chan, one, held, guard>>
+    /\ UNCHANGED <<registry, chan, one, held, guard, prepared>>
 
 \* the guard's trigger_noop panicked itself (caught inside the destructor); the source is gone
 UnwindPanicked(s) ==
@@ -234,10 +265,10 @@ UnwindPanicked(s) ==
     /\ pc' = [pc EXCEPT ![s] = "dead"]
     /\ cur' = 0
     /\ last' = [ev |-> "panicked", src |-> s, t |-> open[s]]
-    /\ UNCHANGED <<registry, chan, one, held, guard>>
+    /\ UNCHANGED <<registry, chan, one, held, guard, prepared>>
 
 PollEnd(s) ==
-    /\ UNCHANGED guard
+    /\ UNCHANGED <<guard, prepared>>
     /\ cur = s /\ pc[s] \in {"idle", "awaiting"}
     /\ P_PollEnd(s, progress[s])
     /\ cur' = 0
@@ -252,6 +283,7 @@ DropHandleAny  == \E t \in TrigIds : DropHandle(t)
 Guards         == GuardValues \cup {NoGuard}
 TriggerAny     == FALSE \in SyncModes /\ \E s \in Srcs, v \in TrigValues, g \in Guards : Trigger(s, v, g)
 TriggerNoopAny == TRUE \in SyncModes /\ \E s \in Srcs, v \in TrigValues, g \in Guards : TriggerNoop(s, v, g)
+PrepareAny     == \E s \in Srcs : (\E v \in TrigValues \ {0} : PrepareTrigger(s, v)) \/ TriggerPrepared(s) \/ DropPrepared(s)
 UnwindAny      == \E s \in Srcs : UnwindTrigger(s) \/ UnwindReturn(s) \/ UnwindPanicked(s)
 PollAny        == \E s \in Srcs : Poll(s)
 ReturnAny      == \E s \in Srcs : Return(s)
@@ -261,7 +293,7 @@ PollEndAny     == \E s \in Srcs : PollEnd(s)
 Next ==
     \/ BuildAny \/ DropBarrierAny \/ WaitAny \/ DropHandleAny
     \/ TriggerAny \/ TriggerNoopAny \/ PollAny
-    \/ ReturnAny \/ PanickedAny \/ PollEndAny \/ UnwindAny
+    \/ ReturnAny \/ PanickedAny \/ PollEndAny \/ UnwindAny \/ PrepareAny
 
 Spec == Init /\ [][Next]_vars
 
